@@ -18,6 +18,10 @@ def mut2(name, props, patches, suite=None, note=""):
     M.append({"name": name, "props": props, "patches": [{"file": f, "old": o, "new": n} for f, o, n in patches], "suite_passes": suite, "note": note})
 
 
+def quiet2(name, props, patches, note=""):
+    Q.append({"name": name, "props": props, "patches": [{"file": f, "old": o, "new": n} for f, o, n in patches], "note": note})
+
+
 def quiet(name, props, file, old, new, note=""):
     Q.append({"name": name, "props": props, "patches": [{"file": file, "old": old, "new": new}], "note": note})
 
@@ -313,6 +317,23 @@ quiet("q-frontier-cache-keeps-parent-entry", ["C09"], "trie/fog.py",
 quiet("q-smt-branch-of-blank-key-does-not-raise", ["C14", "C15"], "trie/smt.py",
       "        value, branch = self._get(key)\n\n        # Ensure that it isn't blank!\n        if value == BLANK_NODE:\n            raise KeyError(\"Key does not exist\")\n\n        return branch",
       "        value, branch = self._get(key)\n\n        return branch", note="what branch() does for an unreadable key is not stated")
+
+quiet("q-scratch-copy-built-explicitly", ["C04", "C05", "C07", "C17"], "trie/utils/db.py",
+      "        combined = merge(self.wrapped_db, self.cache)\n",
+      "        combined = dict(self.wrapped_db)\n        combined.update(self.cache)\n",
+      note="copy() overlays the buffer on a private copy of the wrapped db (correct variant of a seeded bug)")
+quiet("q-fog-nested-check-sorted-lengths", ["C11"], "trie/fog.py",
+      "                shorter_lengths = [\n                    length for length in all_lengths if length < len(segment)\n                ]",
+      "                shorter_lengths = sorted(\n                    length for length in all_lengths if length < len(segment)\n                )",
+      note="iteration order of the lengths does not matter when all shorter lengths are visited")
+quiet2("q-branch-validation-raises-validation-error", ["C13", "C18"], [
+    ("trie/branches.py", "from trie.exceptions import (\n    InvalidKeyError,\n)", "from trie.exceptions import (\n    InvalidKeyError,\n    ValidationError,\n)"),
+    ("trie/branches.py", "        raise AssertionError(\"Branch does not prove the claimed value for the key\")", "        raise ValidationError(\"Branch does not prove the claimed value for the key\")"),
+], note="which exception says 'does not validate' is not part of C13")
+quiet("q-batch-counts-adopted-entry-by-entry", ["C05", "C06"], HX,
+      "            self._ref_count.clear()\n            self._ref_count.update(memory_trie._ref_count)",
+      "            self._ref_count.clear()\n            for _key, _count in memory_trie._ref_count.items():\n                self._ref_count[_key] = _count",
+      note="in-place adoption written as a loop (also right for Counter tables)")
 
 if __name__ == "__main__":
     here = os.path.dirname(os.path.abspath(__file__))
